@@ -1,0 +1,75 @@
+//go:build verif
+
+package mempool
+
+import (
+	"github.com/nspcc-dev/neo-go/pkg/core/transaction"
+	"github.com/nspcc-dev/neo-go/pkg/util"
+)
+
+// Test seams for the external verification harness (/verif, property C08: the
+// pool under concurrent callers). Compiled only with `-tags verif`; they add
+// no behaviour to normal builds and do not change the pool.
+
+// VerifLock takes the pool's lock for writing, exactly as Add, Remove and
+// RemoveStale do. While the harness holds it, every operation issued on
+// another goroutine stops at its first lock acquisition, after whatever it
+// executes before that point. Must be paired with VerifUnlock.
+func (mp *Pool) VerifLock() { mp.lock.Lock() }
+
+// VerifUnlock releases the lock taken by VerifLock.
+func (mp *Pool) VerifUnlock() { mp.lock.Unlock() }
+
+// VerifRLock takes the pool's lock for reading, as the getters do. Must be
+// paired with VerifRUnlock.
+func (mp *Pool) VerifRLock() { mp.lock.RLock() }
+
+// VerifRUnlock releases the lock taken by VerifRLock.
+func (mp *Pool) VerifRUnlock() { mp.lock.RUnlock() }
+
+// VerifLockState reports, without waiting, how the pool's lock is held right
+// now: 2 = some goroutine holds (or is queued for) it for writing, 1 = held
+// by readers only, 0 = free.
+func (mp *Pool) VerifLockState() int {
+	if mp.lock.TryLock() {
+		mp.lock.Unlock()
+		return 0
+	}
+	if mp.lock.TryRLock() {
+		mp.lock.RUnlock()
+		return 1
+	}
+	return 2
+}
+
+// VerifFeeEntry is one row of the per-payer fee table.
+type VerifFeeEntry struct {
+	Primary, Secondary util.Uint160
+	Balance, FeeSum    string // decimal
+}
+
+// VerifFeeTable returns a copy of the per-payer fee table (the balance cached
+// from the Feer and the sum of the pooled fees). The CALLER must hold the
+// pool's lock (VerifLock or VerifRLock): the table is read as it is.
+func (mp *Pool) VerifFeeTable() []VerifFeeEntry {
+	res := make([]VerifFeeEntry, 0, len(mp.fees))
+	for p, f := range mp.fees {
+		res = append(res, VerifFeeEntry{Primary: p.primary, Secondary: p.secondary, Balance: f.balance.Dec(), FeeSum: f.feeSum.Dec()})
+	}
+	return res
+}
+
+// VerifSnapshot returns the listed transactions (in pool order) and the keys
+// of the hash map as they are. The CALLER must hold the pool's lock
+// (VerifLock or VerifRLock), so that one lock region sees both.
+func (mp *Pool) VerifSnapshot() ([]*transaction.Transaction, []util.Uint256) {
+	txs := make([]*transaction.Transaction, len(mp.verifiedTxes))
+	for i := range mp.verifiedTxes {
+		txs[i] = mp.verifiedTxes[i].txn
+	}
+	keys := make([]util.Uint256, 0, len(mp.verifiedMap))
+	for h := range mp.verifiedMap {
+		keys = append(keys, h)
+	}
+	return txs, keys
+}
